@@ -1,1 +1,315 @@
-/- C09: property theorems (not yet built). -/
+/- C09 — Numbers are IEEE-754 doubles with checked range and coherent comparison.
+   Property theorems only (helper lemmas live in Proofs/Num.lean). -/
+import JrsVerif.Proofs.Num
+
+set_option exponentiation.threshold 4096
+
+namespace JrsVerif.Num
+
+/-! ### 1. coherent comparison -/
+
+/-- C09.1 on numbers exactly one of `a < b`, `a == b`, `a > b` holds (operators as coded:
+    `<`/`>` through `Ord for NumValue`, `==` through `primitive_equals`) -/
+theorem trichotomy (a b : D) :
+    (opLt a b = true ∧ opEq a b = false ∧ opGt a b = false) ∨
+    (opLt a b = false ∧ opEq a b = true ∧ opGt a b = false) ∨
+    (opLt a b = false ∧ opEq a b = false ∧ opGt a b = true) := by
+  unfold opLt opEq opGt eqImpl cmp
+  simp only [Generated.NUM_EQ_EXACT, if_true]
+  rcases Int.lt_trichotomy a.val b.val with h | h | h
+  · left
+    have : ¬ a.val = b.val := by omega
+    simp [Int.compare_eq_lt.mpr h, this]
+  · right; left
+    simp [h]
+  · right; right
+    have : ¬ a.val = b.val := by omega
+    simp [Int.compare_eq_gt.mpr h, this]
+
+/-- C09.1 `<=`, `>=`, `!=` and the flipped operators agree with that trichotomy -/
+theorem ops_agree (a b : D) :
+    opLe a b = (opLt a b || opEq a b) ∧ opGe a b = (opGt a b || opEq a b) ∧
+    opNe a b = !opEq a b ∧ opGt a b = opLt b a ∧ opEq a b = opEq b a := by
+  unfold opLe opGe opNe opLt opEq opGt eqImpl cmp
+  simp only [Generated.NUM_EQ_EXACT, if_true]
+  rcases Int.lt_trichotomy a.val b.val with h | h | h
+  · have e1 : (a.val == b.val) = false := beq_false_of_ne (by omega)
+    have e2 : (b.val == a.val) = false := beq_false_of_ne (by omega)
+    simp [Int.compare_eq_lt.mpr h, Int.compare_eq_gt.mpr h, e1, e2]
+  · simp [h]
+  · have e1 : (a.val == b.val) = false := beq_false_of_ne (by omega)
+    have e2 : (b.val == a.val) = false := beq_false_of_ne (by omega)
+    simp [Int.compare_eq_gt.mpr h, Int.compare_eq_lt.mpr h, e1, e2]
+
+/-- the operators compute the order and equality of the exact values -/
+theorem cmp_spec (a b : D) : opLt a b = Spec.lt a b ∧ opEq a b = Spec.eq a b := by
+  refine ⟨cmp_lt_iff a b, ?_⟩
+  unfold opEq eqImpl Spec.eq
+  by_cases h : a.val = b.val <;> simp [Generated.NUM_EQ_EXACT, h]
+
+/-- `std.sort` on numbers orders by the same comparison as `<` -/
+theorem sort_uses_same_order (xs : List D) : sortImpl xs = Spec.sort xs := by
+  unfold sortImpl Spec.sort
+  congr 1
+  funext x ys
+  induction ys with
+  | nil => rfl
+  | cons y ys ih =>
+    simp only [insertBy, Spec.insert, cmp_lt_iff, decide_eq_true_eq]
+    split <;> simp [ih]
+
+/-- `std.sort` returns a permutation of its input that is ascending for `<=` -/
+theorem sort_sorted_perm (xs : List D) :
+    (sortImpl xs).Pairwise (fun p q => opLe p q = true) ∧ (sortImpl xs).Perm xs := by
+  rw [sort_uses_same_order]
+  refine ⟨?_, sort_perm' xs⟩
+  exact (sort_sorted' xs).imp (fun h => (opLe_iff _ _).mpr h)
+
+/-- `std.set` (= uniq ∘ sort, with uniq driven by `==`) is strictly ascending for `<` and holds
+    exactly the values of its input: `==` and `<` agree, so no two equal numbers survive and no
+    value is lost -/
+theorem set_strict_same_values (xs : List D) :
+    (setImpl xs).Pairwise (fun p q => opLt p q = true) ∧
+    ∀ v : D, (∃ y ∈ setImpl xs, opEq y v = true) ↔ (∃ y ∈ xs, opEq y v = true) := by
+  unfold setImpl
+  rw [sort_uses_same_order]
+  have u := uniqImpl_spec (Spec.sort xs) (sort_sorted' xs)
+  refine ⟨u.1.imp (fun h => (opLt_iff _ _).mpr h), ?_⟩
+  intro v
+  simp only [opEq_iff]
+  rw [u.2 v.val]
+  constructor
+  · rintro ⟨y, hy, h⟩; exact ⟨y, (sort_perm' xs).mem_iff.mp hy, h⟩
+  · rintro ⟨y, hy, h⟩; exact ⟨y, (sort_perm' xs).mem_iff.mpr hy, h⟩
+
+/-- `std.setMember(x, std.set(xs))` (binary search driven by the same comparison) is true iff
+    some element of `xs` is `==` to `x` -/
+theorem setMember_iff_mem (x : D) (xs : List D) :
+    setMemberImpl x (setImpl xs) = true ↔ ∃ y ∈ xs, opEq y x = true := by
+  have s := set_strict_same_values xs
+  rw [setMemberImpl_spec x (setImpl xs) (s.1.imp (fun h => (opLt_iff _ _).mp h))]
+  rw [← s.2 x]
+  simp only [opEq_iff]
+
+/-- on any strictly ascending array the binary search of `std.setMember` finds exactly the
+    elements that are `==` to the probe -/
+theorem setMember_binsearch (x : D) (arr : List D)
+    (h : arr.Pairwise (fun p q => opLt p q = true)) :
+    setMemberImpl x arr = true ↔ ∃ y ∈ arr, opEq y x = true := by
+  rw [setMemberImpl_spec x arr (h.imp (fun h => (opLt_iff _ _).mp h))]
+  simp only [opEq_iff]
+
+example : [(⟨false, 1⟩ : D), ⟨false, 2⟩].Pairwise (fun p q => opLt p q = true) := by decide
+
+/-! ### 2. finite guard -/
+
+/-- only finite bit patterns become number values -/
+theorem finite_guard (b r : Nat) : tryNum b = .ok r ↔ (r = b ∧ isFiniteBits b = true) :=
+  tryNum_ok b r
+
+/-- a bit pattern decodes to a value iff it is finite -/
+theorem decode_isSome_iff (b : Nat) : (decode b).isSome = isFiniteBits b := by
+  unfold decode isFiniteBits
+  by_cases h : b / 2 ^ 52 % 2048 = 2047 <;> simp [h]
+
+/-- whatever the hardware computes for `+ - * / %`, the value handed on is finite and is the
+    hardware result -/
+theorem arith_result_finite (hw : AOp → Nat → Nat → Nat) (op : AOp) (a b r : Nat)
+    (h : arith hw op a b = .ok r) : isFiniteBits r = true ∧ r = hw op a b :=
+  arith_finite hw op a b r h
+
+/-- an overflowing / invalid hardware result is an error, not a value -/
+theorem arith_nonfinite_is_error (hw : AOp → Nat → Nat → Nat) (op : AOp) (a b : Nat)
+    (h : isFiniteBits (hw op a b) = false) : ∃ e, arith hw op a b = .error e := by
+  cases op
+  case div => by_cases z : isZeroBits b = true <;> simp [arith, tryNum, h, z]
+  case mod => by_cases z : isZeroBits b = true <;> simp [arith, tryNum, h, z]
+  all_goals simp [arith, tryNum, h]
+
+/-- division and modulo by either zero are `DivisionByZero` errors -/
+theorem div_mod_by_zero (hw : AOp → Nat → Nat → Nat) (a b : Nat) (h : isZeroBits b = true) :
+    arith hw .div a b = .error .div0 ∧ arith hw .mod a b = .error .div0 := by
+  simp [arith, h]
+
+/-- results of `f64`-returning builtins and of unary minus go through the same check -/
+theorem builtin_result_finite (raw r : Nat) (hw : Nat → Nat) (a : Nat) :
+    (builtinRet raw = .ok r → isFiniteBits r = true) ∧
+    (negOp hw a = .ok r → isFiniteBits r = true) := by
+  constructor
+  · intro h; have := (tryNum_ok _ _).mp h; exact this.1 ▸ this.2
+  · intro h; have := (tryNum_ok _ _).mp h; exact this.1 ▸ this.2
+
+/-! ### 3. bitwise operators and shifts -/
+
+/-- the operand guard of the bitwise operators is exactly the safe-integer range, and the operand
+    value used is the integer part -/
+theorem trunc_is_safe_range (a : D) : truncBitwise a = Spec.intOf a := truncBitwise_eq_spec a
+
+/-- `& | ^` : on in-range operands the result is the integer whose 64-bit two's-complement pattern
+    is the bitwise combination of the operands' patterns; it stays in the safe range (so the
+    conversion back to a double is exact and finite); out-of-range operands are errors. -/
+theorem bitwise_spec (op : BOp) (a b : D) :
+    (∀ r, bitOp op a b = .ok r →
+        ∃ x y, Spec.intOf a = .ok x ∧ Spec.intOf b = .ok y ∧
+          bits64 r = op.onBits (bits64 x) (bits64 y) ∧
+          (∀ i, (bits64 r).getLsbD i = op.onBool ((bits64 x).getLsbD i) ((bits64 y).getLsbD i)) ∧
+          -(2 ^ 53) ≤ r ∧ r < 2 ^ 53) ∧
+    ((∃ e, bitOp op a b = .error e) ↔
+        (Spec.intOf a = .error .range ∨ Spec.intOf b = .error .range)) := by
+  unfold bitOp
+  rw [truncBitwise_eq_spec a, truncBitwise_eq_spec b]
+  cases ha : Spec.intOf a with
+  | error e =>
+    have : e = .range := by
+      unfold Spec.intOf at ha; split at ha <;> cases ha; rfl
+    subst this
+    simp [bind, Except.bind]
+  | ok x =>
+    cases hb : Spec.intOf b with
+    | error e =>
+      have : e = .range := by
+        unfold Spec.intOf at hb; split at hb <;> cases hb; rfl
+      subst this
+      simp [bind, Except.bind]
+    | ok y =>
+      have rx := intOf_range a x ha
+      have ry := intOf_range b y hb
+      have rr := i64Bit_range op x y (by omega) (by omega) (by omega) (by omega)
+      simp only [bind, Except.bind, pure, Except.pure]
+      refine ⟨?_, by simp⟩
+      intro r hr
+      cases hr
+      exact ⟨x, y, rfl, rfl, bits64_i64Bit op x y, bits64_getLsbD op x y, rr.1, rr.2⟩
+
+/-- `<<` as coded equals its reference meaning: negative count → error; operand outside the safe
+    range → error; count taken modulo 64; result `x · 2^n` when it fits `i64`, else an overflow
+    error (in particular for negative bases). -/
+theorem shl_spec (a b : D) : shlOp a b = Spec.shl a b := by
+  unfold shlOp Spec.shl isNegative
+  by_cases hb : b.val < 0
+  · simp [hb]
+  · simp only [hb, decide_false, if_false, Bool.false_eq_true]
+    rw [truncBitwise_eq_spec a, truncBitwise_eq_spec b]
+    cases ha : Spec.intOf a with
+    | error e => simp [bind, Except.bind]
+    | ok x =>
+      cases hn : Spec.intOf b with
+      | error e => simp [bind, Except.bind]
+      | ok n =>
+        have n0 := intOf_nonneg b n hb hn
+        have rx := intOf_range a x ha
+        simp only [bind, Except.bind, pure, Except.pure, Generated.SHIFT_MOD]
+        have he : (Int.tmod n ((64 : Nat) : Int)).toNat = n.toNat % 64 := tmod64_toNat n n0
+        simp only [he]
+        have hlt : n.toNat % 64 < 64 := Nat.mod_lt _ (by decide)
+        have g := shl_guard_iff x (n.toNat % 64) hlt rx.1 rx.2
+        by_cases hg : (n.toNat % 64 ≥ 1 ∧ (x ≥ 2 ^ (63 - n.toNat % 64) ∨ x < -(2 ^ (63 - n.toNat % 64))))
+        · have nf := g.mp hg
+          have : Spec.fitsI64 (x * 2 ^ (n.toNat % 64)) = false := by
+            unfold Spec.fitsI64; simpa using nf
+          simp [hg, this]
+        · have f : (-(2 ^ 63) ≤ x * 2 ^ (n.toNat % 64) ∧ x * 2 ^ (n.toNat % 64) < 2 ^ 63) := by
+            by_cases c : (-(2 ^ 63) ≤ x * 2 ^ (n.toNat % 64) ∧ x * 2 ^ (n.toNat % 64) < 2 ^ 63)
+            · exact c
+            · exact absurd (g.mpr c) hg
+          have : Spec.fitsI64 (x * 2 ^ (n.toNat % 64)) = true := by
+            unfold Spec.fitsI64; simpa using f
+          simp only [hg, this, if_false, if_true]
+          rw [wrapI64_of_fits _ f.1 f.2]
+
+/-- `<<` fails exactly for: negative count, an operand outside the safe range, or a product that
+    does not fit `i64`; otherwise the result is the exact product -/
+theorem shl_err_iff (a b : D) :
+    (∃ e, shlOp a b = .error e) ↔
+      (b.val < 0 ∨ Spec.intOf a = .error .range ∨ Spec.intOf b = .error .range ∨
+        ∃ x n, Spec.intOf a = .ok x ∧ Spec.intOf b = .ok n ∧
+          ¬ (-(2 ^ 63) ≤ x * 2 ^ (n.toNat % 64) ∧ x * 2 ^ (n.toNat % 64) < 2 ^ 63)) := by
+  rw [shl_spec]
+  unfold Spec.shl
+  by_cases hb : b.val < 0
+  · simp [hb]
+  · simp only [hb, if_false, false_or]
+    cases ha : Spec.intOf a with
+    | error e =>
+      have : e = .range := by
+        unfold Spec.intOf at ha; split at ha <;> cases ha; rfl
+      subst this; simp [bind, Except.bind]
+    | ok x =>
+      cases hn : Spec.intOf b with
+      | error e =>
+        have : e = .range := by
+          unfold Spec.intOf at hn; split at hn <;> cases hn; rfl
+        subst this; simp [bind, Except.bind]
+      | ok n =>
+        simp only [bind, Except.bind, pure, Except.pure]
+        by_cases f : (-(2 ^ 63) ≤ x * 2 ^ (n.toNat % 64) ∧ x * 2 ^ (n.toNat % 64) < 2 ^ 63)
+        · have : Spec.fitsI64 (x * 2 ^ (n.toNat % 64)) = true := by
+            unfold Spec.fitsI64; simpa using f
+          simp [this]; omega
+        · have : Spec.fitsI64 (x * 2 ^ (n.toNat % 64)) = false := by
+            unfold Spec.fitsI64; simpa using f
+          simp [this]; omega
+
+/-- `>>` as coded equals its reference meaning (arithmetic shift = floor division by `2^n`,
+    count modulo 64, same operand guards) -/
+theorem shr_spec (a b : D) : shrOp a b = Spec.shr a b := by
+  unfold shrOp Spec.shr isNegative
+  by_cases hb : b.val < 0
+  · simp [hb]
+  · simp only [hb, decide_false, if_false, Bool.false_eq_true]
+    rw [truncBitwise_eq_spec a, truncBitwise_eq_spec b]
+    cases ha : Spec.intOf a with
+    | error e => simp [bind, Except.bind]
+    | ok x =>
+      cases hn : Spec.intOf b with
+      | error e => simp [bind, Except.bind]
+      | ok n =>
+        have n0 := intOf_nonneg b n hb hn
+        simp only [bind, Except.bind, pure, Except.pure, Generated.SHIFT_MOD]
+        have he : (Int.tmod n ((64 : Nat) : Int)).toNat = n.toNat % 64 := tmod64_toNat n n0
+        simp only [he, Int.shiftRight_eq_div_pow]
+        simp
+
+/-- unary `~` on an operand whose integer part fits `i64` is `-x - 1` (two's-complement not) -/
+theorem bitnot_spec (a : D) (h1 : -(2 ^ 63) ≤ Int.tdiv a.val (U : Int))
+    (h2 : Int.tdiv a.val (U : Int) ≤ 2 ^ 63 - 1) :
+    bitNot a = -(Int.tdiv a.val (U : Int)) - 1 ∧
+    bits64 (bitNot a) = ~~~ bits64 (Int.tdiv a.val (U : Int)) := by
+  have e : bitNot a = -(Int.tdiv a.val (U : Int)) - 1 := by
+    unfold bitNot satI64
+    simp only
+    split
+    · omega
+    · split
+      · omega
+      · rfl
+  refine ⟨e, ?_⟩
+  rw [e]
+  apply BitVec.eq_of_toInt_eq
+  simp only [bits64, BitVec.toInt_ofInt, BitVec.toInt_not, BitVec.toNat_ofInt]
+  have : ((2 : Nat) ^ 64 : Nat) = 18446744073709551616 := by decide
+  simp only [this, Int.bmod_def]
+  omega
+
+/-! ### non-vacuity -/
+
+/-- 1.0, 2^53−1 and 2^53 decode as expected; 2^53 is outside the bitwise range, 2^53−1 inside -/
+example :
+    decode 0x3ff0000000000000 = some ⟨false, U⟩ ∧
+    Spec.intOf ⟨false, (2 ^ 53 - 1) * U⟩ = .ok (2 ^ 53 - 1) ∧
+    Spec.intOf ⟨false, 2 ^ 53 * U⟩ = .error .range := by
+  refine ⟨by decide, ?_, ?_⟩ <;> simp [Spec.intOf, D.val, U] <;> decide
+
+/-- the witnesses of the repaired defects, on the model -/
+example : opEq ⟨false, 0⟩ ⟨false, 1⟩ = false ∧ opLt ⟨false, 0⟩ ⟨false, 1⟩ = true := by decide
+
+example : shlOp ⟨true, (2 ^ 53 - 1) * U⟩ ⟨false, 12 * U⟩ = .error .overflow := by
+  rw [shl_spec]; rfl
+
+example : shlOp ⟨false, 1 * U⟩ ⟨false, 64 * U⟩ = .ok 1 := by
+  rw [shl_spec]; rfl
+
+example : bitOp .and ⟨true, 5 * U⟩ ⟨false, 3 * U⟩ = .ok 3 := by
+  rw [bitOp, truncBitwise_eq_spec, truncBitwise_eq_spec]; rfl
+
+end JrsVerif.Num
